@@ -1295,6 +1295,9 @@ impl Drop for CleanupOnUnwind {
                 o.atoms[1].fetch_add(1, std::sync::atomic::Ordering::SeqCst);
                 let _ = o.atoms[1].load(std::sync::atomic::Ordering::SeqCst);
                 o.atoms[1].store(9, std::sync::atomic::Ordering::SeqCst);
+                // what a destructor that believes it has exclusive access does; during an unwind other threads may still
+                // be using the atomic, and a second panic (a race report) would kill the process
+                let _ = unsafe { o.atoms[0].unsync_load() };
             }
         }
     }
